@@ -52,6 +52,12 @@ def col (A : Mat) (j : Nat) : List Rat := (List.range A.rows).map (fun i => A.ge
 def ofFn (m n : Nat) (f : Nat → Nat → Rat) : Mat :=
   ⟨m, n, (List.range m).map (fun i => (List.range n).map (fun j => f i j))⟩
 
+/-- a result built as `std::vector<std::vector<double>> result_components(m, std::vector<double>(n))`,
+    filled by the double loop and handed to `Matrix(std::vector<std::vector<double>>)`: that
+    constructor takes the column count from the first row, so a result without rows is `0 × 0`
+    (shapes with a zero dimension are outside the property's quantifier; modelled as coded) -/
+def ofFnE (m n : Nat) (f : Nat → Nat → Rat) : Mat := ofFn m (if m = 0 then 0 else n) f
+
 /-- `Matrix(dim_rows, dim_columns, entry)` -/
 def const (m n : Nat) (e : Rat) : Mat := ofFn m n (fun _ _ => e)
 
@@ -194,12 +200,12 @@ def returnRow (A : Mat) (r : Nat) : Except Err Vec :=
 /-- `Plus` / `operator+` (shape test as fixed by 9df8ec7) -/
 def plus (A B : Mat) : Except Err Mat :=
   if A.rows ≠ B.rows ∨ A.cols ≠ B.cols then .error .diag
-  else .ok (ofFn A.rows A.cols (fun i j => A.get i j + B.get i j))
+  else .ok (ofFnE A.rows A.cols (fun i j => A.get i j + B.get i j))
 
 /-- `Minus` / `operator-` -/
 def minus (A B : Mat) : Except Err Mat :=
   if A.rows ≠ B.rows ∨ A.cols ≠ B.cols then .error .diag
-  else .ok (ofFn A.rows A.cols (fun i j => A.get i j - B.get i j))
+  else .ok (ofFnE A.rows A.cols (fun i j => A.get i j - B.get i j))
 
 /-- write `components[i][j] = v` -/
 def setEntry (d : List (List Rat)) (i j : Nat) (v : Rat) : List (List Rat) :=
@@ -221,10 +227,10 @@ def minusAssign (A B : Mat) : Except Err Mat :=
   if A.rows ≠ B.rows ∨ A.cols ≠ B.cols then .error .diag else .ok (mUpdLoop (· - ·) A B)
 
 /-- `Product(double)`, `operator*(double)`, free `operator*(double, Matrix)` (`s * a_ij`) -/
-def smul (s : Rat) (A : Mat) : Mat := ofFn A.rows A.cols (fun i j => s * A.get i j)
+def smul (s : Rat) (A : Mat) : Mat := ofFnE A.rows A.cols (fun i j => s * A.get i j)
 
 /-- `Division(double)`, `operator/(double)`; `s = 0`: the driver answers `undef` -/
-def sdiv (A : Mat) (s : Rat) : Mat := ofFn A.rows A.cols (fun i j => A.get i j / s)
+def sdiv (A : Mat) (s : Rat) : Mat := ofFnE A.rows A.cols (fun i j => A.get i j / s)
 
 /-- `Product(const Matrix&)`: the triple loop `result[i][j] += a[i][k]*M[k][j]`, `k < columns` -/
 def mul (A B : Mat) : Except Err Mat :=
@@ -265,7 +271,7 @@ def diagonal (A : Mat) : Bool :=
 /-! ## Operations -/
 
 /-- `Transpose` -/
-def transpose (A : Mat) : Mat := ofFn A.cols A.rows (fun i j => A.get j i)
+def transpose (A : Mat) : Mat := ofFnE A.cols A.rows (fun i j => A.get j i)
 
 /-- `Return_Column` = `Transpose().Return_Row(column)` -/
 def returnCol (A : Mat) (c : Nat) : Except Err Vec :=
